@@ -262,11 +262,18 @@ class Check:
         with open(os.path.join(EVID, self.prop + ".json"), "w") as f:
             json.dump(ev, f, indent=1)
         if self.violations:
+            shown = {}
             for key, text, replay in self.violations:
                 if not replay:
                     replay = self.save_replay("violation.txt", text)
+                shown[key] = shown.get(key, 0) + 1
+                if shown[key] > 3:
+                    continue
                 log("VIOLATION property=%s replay=%s" % (self.prop, replay))
-                log("  key=%s %s" % (key, text[:2000]))
+                log("  key=%s %s" % (key, text[:1500]))
+            for key, n in shown.items():
+                if n > 3:
+                    log("  (... %d more violations with key=%s)" % (n - 3, key))
             return 1
         if self.errors:
             return 2
